@@ -7,6 +7,7 @@ package p_lru
 import (
 	"errors"
 	"fmt"
+	"math"
 	"sort"
 	"strconv"
 	"strings"
@@ -21,10 +22,45 @@ const (
 	ShapeCache     = "cache"     // lru.Cache[string,int]
 	ShapeECache    = "ecache"    // lru.ECache[[]string,string,int], inner key = lower-cased join of the PK
 	ShapeExpirable = "expirable" // lru.ExpirableCache[string,*item], expiry flag owned by the harness
+	// ShapeIface is lru.Cache[string,any]: the value type is an INTERFACE type, and a successful creation may hand over the nil
+	// interface value, a typed nil pointer or a non-nil pointer (Op.Nil). For the cache a value is a value: nil ones are inserted,
+	// returned by hits, counted by Clear, evicted in their turn and passed to the delete callback like any other.
+	ShapeIface = "iface"
 )
 
-// Shapes lists the three shapes.
-var Shapes = []string{ShapeCache, ShapeECache, ShapeExpirable}
+// Shapes lists the shapes.
+var Shapes = []string{ShapeCache, ShapeECache, ShapeExpirable, ShapeIface}
+
+// Kinds of values a successful creation returns in the iface shape (Op.Nil).
+const (
+	KindValue    = 0 // a non-nil *box carrying the value id
+	KindNilIface = 1 // the nil interface value: create returns (nil, nil)
+	KindNilPtr   = 2 // a typed nil pointer, (*box)(nil), wrapped in the interface
+	NKinds       = 3
+)
+
+// box is the concrete type behind the values of the iface shape.
+type box struct{ id int }
+
+// HugeCaps are the capacities that stand for "unbounded" (math.MaxInt is the usual spelling) or "larger than anything that will
+// ever be inserted". No case can fill such a cache, so it behaves like an unbounded one: nothing is ever evicted. Nothing in the
+// harness allocates, loops or does arithmetic that could overflow by capacity.
+var HugeCaps = []int{math.MaxInt, math.MaxInt - 1, 1 << 40, 1 << 31, 1 << 16}
+
+// hugeCap: from here on the epilogue cannot afford to fill the cache.
+const hugeCap = 1 << 12
+
+func kindName(k int) string {
+	switch k {
+	case KindNilIface:
+		return "nil interface value"
+	case KindNilPtr:
+		return "typed nil pointer"
+	}
+	return "non-nil value"
+}
+
+func normKind(k int) int { return ((k % NKinds) + NKinds) % NKinds }
 
 // NVariants is the number of distinct PKs that collide on one inner key (shape ecache).
 const NVariants = 3
@@ -55,6 +91,9 @@ type Op struct {
 	// call makes them; a later g with Born > 0 on the key replaces the rest of the run by its own, Born == 0
 	// leaves it alone.
 	Born int `json:"born,omitempty"`
+	// Nil (g only, shape iface; ignored elsewhere): what the create function, if it gets called by this op and succeeds, returns as
+	// the value: KindValue, KindNilIface or KindNilPtr (taken modulo NKinds). Nested calls have their own.
+	Nil int `json:"nil,omitempty"`
 }
 
 // MaxBorn is the longest run of consecutive born-expired creations for one key that one op can order.
@@ -73,7 +112,8 @@ const (
 // max(1,Repeat) times; in repetition r every key index is shifted by r*Stride (mod Keys), which
 // gives long histories a compact, replayable form. Every case ends with the same epilogue: Cap
 // insertions of fresh keys (each must evict the then least recently used entry, which exposes the
-// whole recency order), a final Clear and the created/deleted ledger balance.
+// whole recency order; a cache with a huge capacity, see HugeCaps, gets 4 insertions, none of which may evict),
+// a final Clear and the created/deleted ledger balance.
 type Case struct {
 	Shape     string `json:"shape"`
 	Cap       int    `json:"cap"`
@@ -114,6 +154,11 @@ type Info struct {
 	BornReturnedStale    bool // ... and the replacement was born expired too: returned and resident although stale
 	BornReplacedStale    bool // a resident stale item was replaced by a born-expired one
 	BornRunOverCalls     bool // a run of >= 3 born-expired creations for one key, i.e. spread over at least two calls
+	NilIfaceCreated      int  // iface: successful creations that returned the nil interface value
+	NilPtrCreated        int  // iface: ... a typed nil pointer
+	NilHit               bool // iface: a hit returned a resident nil value (no create call)
+	NilLeft              bool // iface: a resident nil value left by eviction, Remove or Clear (delete callback with the nil value)
+	NilEvicted           bool // ... by eviction
 	NestedCalls          int  // calls made from inside the create function
 	NestedDepth2         bool // a nested call made from inside a nested creation
 	NestedChanged        bool // a nested call inserted or removed an entry
@@ -127,8 +172,9 @@ type Info struct {
 }
 
 type del struct {
-	pk  string
-	val int
+	pk   string
+	val  int
+	kind int // iface shape: kind of the value handed to the callback (the id of a nil value is resolved through the key)
 }
 
 // item is the value type of the expirable shape.
@@ -149,10 +195,12 @@ func (i *item) GetExpiresAt() time.Time {
 
 // world is the harness-owned side of the callbacks.
 type world struct {
-	fail    bool     // outcome of the create call of the GetOrCreate that is about to be made
-	creates []string // canonical form of the pk of every create call of the current (innermost) call
-	dels    []del    // delete callbacks of the current (innermost) call
-	hook    func()   // run once by the next create call before it returns (executes the nested program)
+	fail    bool           // outcome of the create call of the GetOrCreate that is about to be made
+	kind    int            // iface: kind of value a successful create call of that GetOrCreate returns
+	lastNil map[string]int // iface: key -> id of the latest creation for the key that returned a nil value
+	creates []string       // canonical form of the pk of every create call of the current (innermost) call
+	dels    []del          // delete callbacks of the current (innermost) call
+	hook    func()         // run once by the next create call before it returns (executes the nested program)
 	nextVal int
 	lastErr error
 	nErr    int
@@ -203,11 +251,11 @@ func (w *world) pkName(pk []string) string {
 
 func (w *world) create(pk string) (int, error) {
 	w.creates = append(w.creates, pk)
-	fail := w.fail
+	fail, kind := w.fail, w.kind
 	if h := w.hook; h != nil {
 		w.hook = nil
-		h()           // nested calls on the same cache; they have their own callback lists
-		w.fail = fail // ... and their own outcomes; a second create call of the outer call sees the outer one
+		h()                         // nested calls on the same cache; they have their own callback lists
+		w.fail, w.kind = fail, kind // ... and their own outcomes; a second create call of the outer call sees the outer one
 	}
 	if fail {
 		w.nErr++
@@ -224,7 +272,7 @@ type walkRes struct {
 }
 
 type sut struct {
-	get    func(key, vr int) (int, error) // value id returned (expirable: id of the returned item, 0 for nil)
+	get    func(key, vr int) (int, int, error) // value id returned (expirable: id of the returned item, 0 for nil) and its kind (iface shape, else 0)
 	remove func(key, vr int) bool
 	clear  func() int
 	walk   func() walkRes
@@ -267,14 +315,14 @@ func build(c Case, w *world) (*sut, error) {
 		}
 		var df lru.OnDeleteElemF[string, int]
 		if !c.NoCB {
-			df = func(k string, v int) { w.dels = append(w.dels, del{k, v}) }
+			df = func(k string, v int) { w.dels = append(w.dels, del{k, v, 0}) }
 		}
 		ch, err := lru.NewCache[string, int](c.Cap, cf, df)
 		if err != nil {
 			return nil, err
 		}
 		return &sut{
-			get:    func(key, vr int) (int, error) { return ch.GetOrCreate(keyName(key)) },
+			get:    func(key, vr int) (int, int, error) { v, err := ch.GetOrCreate(keyName(key)); return v, 0, err },
 			remove: func(key, vr int) bool { return ch.Remove(keyName(key)) },
 			clear:  func() int { return ch.Clear() },
 			walk:   walkOf(ch.ECache),
@@ -286,14 +334,14 @@ func build(c Case, w *world) (*sut, error) {
 		}
 		var df lru.OnDeleteElemF[[]string, int]
 		if !c.NoCB {
-			df = func(pk []string, v int) { w.dels = append(w.dels, del{w.pkName(pk), v}) }
+			df = func(pk []string, v int) { w.dels = append(w.dels, del{w.pkName(pk), v, 0}) }
 		}
 		ch, err := lru.NewECache[[]string, string, int](c.Cap, innerKey, cf, df)
 		if err != nil {
 			return nil, err
 		}
 		return &sut{
-			get:    func(key, sel int) (int, error) { return ch.GetOrCreate(w.pkFor(key, sel)) },
+			get:    func(key, sel int) (int, int, error) { v, err := ch.GetOrCreate(w.pkFor(key, sel)); return v, 0, err },
 			remove: func(key, sel int) bool { return ch.Remove(w.pkFor(key, sel)) },
 			clear:  func() int { return ch.Clear() },
 			walk:   walkOf(ch),
@@ -329,7 +377,7 @@ func build(c Case, w *world) (*sut, error) {
 				if v != nil {
 					id = v.id
 				}
-				w.dels = append(w.dels, del{k, id})
+				w.dels = append(w.dels, del{k, id, 0})
 			}
 		}
 		ch, err := lru.NewExpirableCache[string, *item](c.Cap, cf, df)
@@ -337,28 +385,94 @@ func build(c Case, w *world) (*sut, error) {
 			return nil, err
 		}
 		return &sut{
-			get: func(key, vr int) (int, error) {
+			get: func(key, vr int) (int, int, error) {
 				it, err := ch.GetOrCreate(keyName(key))
 				if it == nil {
-					return 0, err
+					return 0, 0, err
 				}
-				return it.id, err
+				return it.id, 0, err
 			},
 			remove: func(key, vr int) bool { return ch.Remove(keyName(key)) },
 			clear:  func() int { return ch.Clear() },
 			walk:   walkOf(ch.Cache.ECache),
 		}, nil
+	case ShapeIface:
+		// unbox names a value of the cache: a non-nil box by its id; a nil value carries no id, it is resolved through the key
+		// (at most one value per key is resident, and it is the latest one created for the key)
+		unbox := func(k string, v any) (int, int) {
+			if v == nil {
+				return w.lastNil[k], KindNilIface
+			}
+			b, ok := v.(*box)
+			switch {
+			case !ok:
+				return -1, KindValue
+			case b == nil:
+				return w.lastNil[k], KindNilPtr
+			}
+			return b.id, KindValue
+		}
+		var cf lru.CreatePoolElemF[string, any]
+		if !c.NilCreate {
+			cf = func(k string) (any, error) {
+				id, err := w.create(k)
+				if err != nil {
+					return nil, err
+				}
+				switch w.kind {
+				case KindNilIface:
+					w.noteNil(k, id)
+					return nil, nil
+				case KindNilPtr:
+					w.noteNil(k, id)
+					return (*box)(nil), nil
+				}
+				return &box{id: id}, nil
+			}
+		}
+		var df lru.OnDeleteElemF[string, any]
+		if !c.NoCB {
+			df = func(k string, v any) {
+				id, kind := unbox(k, v)
+				w.dels = append(w.dels, del{k, id, kind})
+			}
+		}
+		ch, err := lru.NewCache[string, any](c.Cap, cf, df)
+		if err != nil {
+			return nil, err
+		}
+		return &sut{
+			get: func(key, vr int) (int, int, error) {
+				v, err := ch.GetOrCreate(keyName(key))
+				if err != nil {
+					return 0, 0, err
+				}
+				id, kind := unbox(keyName(key), v)
+				return id, kind, nil
+			},
+			remove: func(key, vr int) bool { return ch.Remove(keyName(key)) },
+			clear:  func() int { return ch.Clear() },
+			walk:   walkOf(ch.ECache),
+		}, nil
 	}
 	panic("bad shape " + c.Shape)
 }
 
+func (w *world) noteNil(k string, id int) {
+	if w.lastNil == nil {
+		w.lastNil = map[string]int{}
+	}
+	w.lastNil[k] = id
+}
+
 // entry of the reference LRU; the slice is kept in recency order, least recently used first.
 type entry struct {
-	key int
-	pk  string // name of the PK stored at creation (content, or the identity of a reusable buffer)
-	sel int    // ecache: variant + NVariants*buffer of the creating call
-	val int
-	it  *item // expirable only
+	key  int
+	pk   string // name of the PK stored at creation (content, or the identity of a reusable buffer)
+	sel  int    // ecache: variant + NVariants*buffer of the creating call
+	val  int
+	kind int   // iface only: KindValue / KindNilIface / KindNilPtr
+	it   *item // expirable only
 }
 
 // Run executes the case against the real cache and the reference LRU (C08, functional only).
@@ -433,7 +547,11 @@ func run(c Case, walk bool, info *Info) *vstat.Violation {
 			if i > 0 {
 				b.WriteString(" ")
 			}
-			fmt.Fprintf(&b, "(%s,#%d)", x.pk, x.val)
+			fmt.Fprintf(&b, "(%s,#%d", x.pk, x.val)
+			if x.kind != KindValue {
+				fmt.Fprintf(&b, "=%s", kindName(x.kind))
+			}
+			b.WriteString(")")
 		}
 		b.WriteString("]")
 		return b.String()
@@ -446,6 +564,9 @@ func run(c Case, walk bool, info *Info) *vstat.Violation {
 				b.WriteString(" ")
 			}
 			fmt.Fprintf(&b, "%s=#%d", e.pk, e.val)
+			if e.kind != KindValue {
+				fmt.Fprintf(&b, "(%s)", kindName(e.kind))
+			}
 			if e.it != nil && e.it.expired {
 				b.WriteString("(expired)")
 			}
@@ -571,14 +692,23 @@ func run(c Case, walk bool, info *Info) *vstat.Violation {
 		}
 		info.Checkpoints++
 		info.MaxNodes = max(info.MaxNodes, r.Nodes)
-		if r.Nodes > c.Cap+1 {
+		if r.Nodes-1 > c.Cap { // not Cap+1: the capacity may be math.MaxInt
 			return vstat.V("lru:walk-checkpoint-growth", "after %d calls the recency list has %d nodes, capacity is %d (must stay <= capacity+1 whatever the history length)", done, r.Nodes, c.Cap)
 		}
 		return nil
 	}
 
 	// insert does the model side of a successful creation and returns the expected delete callbacks.
-	insert := func(key int, pk string, sel int, val int, lenAtMiss int) []del {
+	delOf := func(e entry) del { return del{e.pk, e.val, e.kind} }
+	left := func(e entry, evicted bool) { // classification of an entry that leaves the cache
+		if e.kind != KindValue {
+			info.NilLeft = true
+			if evicted {
+				info.NilEvicted = true
+			}
+		}
+	}
+	insert := func(key int, pk string, sel int, val int, kind int, lenAtMiss int) []del {
 		var want []del
 		if len(m) >= c.Cap {
 			if lenAtMiss >= 0 && lenAtMiss < c.Cap {
@@ -601,7 +731,8 @@ func run(c Case, walk bool, info *Info) *vstat.Violation {
 			if mutated(victim) {
 				info.MutatedLeft, info.MutatedEvicted = true, true
 			}
-			want = append(want, del{victim.pk, victim.val})
+			want = append(want, delOf(victim))
+			left(victim, true)
 			dropAt(0)
 			if !epilogue {
 				info.Evictions++
@@ -610,7 +741,13 @@ func run(c Case, walk bool, info *Info) *vstat.Violation {
 				info.EvictAfterClear = true
 			}
 		}
-		e := entry{key: key, pk: pk, sel: sel, val: val}
+		e := entry{key: key, pk: pk, sel: sel, val: val, kind: kind}
+		switch kind {
+		case KindNilIface:
+			info.NilIfaceCreated++
+		case KindNilPtr:
+			info.NilPtrCreated++
+		}
 		if c.Shape == ShapeExpirable {
 			e.it = w.lastIt
 		}
@@ -631,9 +768,20 @@ func run(c Case, walk bool, info *Info) *vstat.Violation {
 
 	// getOrCreate executes one GetOrCreate against both sides. prog is the program the create function
 	// runs if this call reaches it; stack holds the keys whose creation is in progress around this call.
-	getOrCreate := func(key, vr int, fail bool, born int, prog []Op, stack []int) (v *vstat.Violation, stop bool) {
+	getOrCreate := func(key, vr int, fail bool, born int, nilKind int, prog []Op, stack []int) (v *vstat.Violation, stop bool) {
 		pk := c.pkRepr(key, vr)
 		setBorn(key, born)
+		wantKind := KindValue
+		if c.Shape == ShapeIface {
+			wantKind = normKind(nilKind)
+		}
+		// valStr describes a value as the caller sees it
+		valStr := func(id, kind int) string {
+			if kind != KindValue {
+				return fmt.Sprintf("#%d (%s)", id, kindName(kind))
+			}
+			return fmt.Sprintf("#%d", id)
+		}
 		// nb: how many of the coming creations for this key are born expired. Calls nested in the create
 		// function never touch a key in flight, so the run cannot change while this call is running.
 		nb := w.born[keyName(key)]
@@ -651,7 +799,7 @@ func run(c Case, walk bool, info *Info) *vstat.Violation {
 			}
 		}
 		lenAtMiss := -1
-		w.fail = fail
+		w.fail, w.kind = fail, wantKind
 		w.hook = func() { // inside the create function, the cache lock is not held
 			if kind == hit {
 				return // a create call on a hit is reported below
@@ -667,7 +815,7 @@ func run(c Case, walk bool, info *Info) *vstat.Violation {
 				runNested(prog, append(stack, key))
 			}
 		}
-		got, err := s.get(key, vr)
+		got, gotKind, err := s.get(key, vr)
 		w.hook = nil
 		if pendingV != nil {
 			return pendingV, true
@@ -689,7 +837,7 @@ func run(c Case, walk bool, info *Info) *vstat.Violation {
 				if got != w.nextVal {
 					return vstat.V("lru:expired-wrong-value", "%s: stale #%d must be replaced by the new #%d, got #%d", where(), stale.val, w.nextVal, got), true
 				}
-				want := append([]del{{stale.pk, stale.val}}, insert(key, pk, vr, w.nextVal, lenAtMiss)...)
+				want := append([]del{delOf(stale)}, insert(key, pk, vr, w.nextVal, KindValue, lenAtMiss)...)
 				if v := wantDels("lru:expired-callbacks", want, false); v != nil {
 					return v, true
 				}
@@ -709,7 +857,7 @@ func run(c Case, walk bool, info *Info) *vstat.Violation {
 			info.Fails++
 			// Whether the stale item is still resident after a failed re-creation is not determined by the
 			// documentation: accept "removed (callback once)" and follow it; abandon the case on "kept".
-			if !c.NoCB && len(w.dels) == 1 && w.dels[0] == (del{stale.pk, stale.val}) {
+			if !c.NoCB && len(w.dels) == 1 && w.dels[0] == delOf(stale) {
 				info.ExpiredRecreateFail = true
 				return nil, false
 			}
@@ -725,8 +873,11 @@ func run(c Case, walk bool, info *Info) *vstat.Violation {
 			if err != nil {
 				return vstat.V("lru:hit-error", "%s: key is resident (#%d) but GetOrCreate returned error %v", where(), old.val, err), true
 			}
-			if got != old.val {
-				return vstat.V("lru:hit-wrong-value", "%s: key is resident with #%d but GetOrCreate returned #%d", where(), old.val, got), true
+			if got != old.val || gotKind != old.kind {
+				return vstat.V("lru:hit-wrong-value", "%s: key is resident with %s but GetOrCreate returned %s", where(), valStr(old.val, old.kind), valStr(got, gotKind)), true
+			}
+			if old.kind != KindValue {
+				info.NilHit = true
 			}
 			if v := wantDels("lru:hit-callbacks", nil, true); v != nil {
 				return v, true
@@ -777,10 +928,10 @@ func run(c Case, walk bool, info *Info) *vstat.Violation {
 				if got != w.nextVal {
 					return vstat.V("lru:born-expired-wrong-value", "%s: created #%d (already expired), then its replacement #%d, but GetOrCreate returned #%d", where(), first, w.nextVal, got), true
 				}
-				want := insert(key, pk, vr, first, lenAtMiss) // inserted (evicting if full) before its expiry is looked at
-				want = append(want, del{pk, first})
+				want := insert(key, pk, vr, first, KindValue, lenAtMiss) // inserted (evicting if full) before its expiry is looked at
+				want = append(want, del{pk, first, KindValue})
 				dropAt(find(key))
-				want = append(want, insert(key, pk, vr, w.nextVal, -1)...) // there is room now: no second eviction
+				want = append(want, insert(key, pk, vr, w.nextVal, KindValue, -1)...) // there is room now: no second eviction
 				if v := wantDels("lru:born-expired-callbacks", want, false); v != nil {
 					return v, true
 				}
@@ -791,10 +942,10 @@ func run(c Case, walk bool, info *Info) *vstat.Violation {
 				info.Misses++
 				return nil, false
 			}
-			if got != w.nextVal {
-				return vstat.V("lru:miss-wrong-value", "%s: created #%d but GetOrCreate returned #%d", where(), w.nextVal, got), true
+			if got != w.nextVal || gotKind != wantKind {
+				return vstat.V("lru:miss-wrong-value", "%s: created %s but GetOrCreate returned %s", where(), valStr(w.nextVal, wantKind), valStr(got, gotKind)), true
 			}
-			want := insert(key, pk, vr, w.nextVal, lenAtMiss)
+			want := insert(key, pk, vr, w.nextVal, wantKind, lenAtMiss)
 			if v := wantDels("lru:evict-callbacks", want, true); v != nil {
 				return v, true
 			}
@@ -809,7 +960,8 @@ func run(c Case, walk bool, info *Info) *vstat.Violation {
 		}
 		want := make([]del, 0, len(m))
 		for _, e := range m {
-			want = append(want, del{e.pk, e.val})
+			want = append(want, delOf(e))
+			left(e, false)
 			if e.it != nil && e.it.expired {
 				info.ExpiredEvicted = true
 			}
@@ -840,7 +992,7 @@ func run(c Case, walk bool, info *Info) *vstat.Violation {
 		}
 		switch op.K {
 		case "g":
-			if v, stop := getOrCreate(key, vr, op.Fail, op.Born, op.Nested, stack); v != nil || stop {
+			if v, stop := getOrCreate(key, vr, op.Fail, op.Born, op.Nil, op.Nested, stack); v != nil || stop {
 				return v, true
 			}
 		case "r":
@@ -851,7 +1003,8 @@ func run(c Case, walk bool, info *Info) *vstat.Violation {
 			}
 			var want []del
 			if idx >= 0 {
-				want = []del{{m[idx].pk, m[idx].val}}
+				want = []del{delOf(m[idx])}
+				left(m[idx], false)
 				if m[idx].it != nil && m[idx].it.expired {
 					info.ExpiredEvicted = true
 				}
@@ -912,7 +1065,7 @@ func run(c Case, walk bool, info *Info) *vstat.Violation {
 		switch op.K {
 		case "g":
 			setBorn(key, op.Born)
-			w.fail = op.Fail
+			w.fail, w.kind = op.Fail, normKind(op.Nil)
 			w.hook = func() {
 				if len(op.Nested) > 0 {
 					runNested(op.Nested, append(stack, key))
@@ -1038,8 +1191,13 @@ func run(c Case, walk bool, info *Info) *vstat.Violation {
 
 	epilogue = true
 	shift = 0
-	// epilogue 1: Cap insertions of fresh keys; the i-th one must evict the i-th entry of the recency order
-	for i := 0; i < c.Cap; i++ {
+	// epilogue 1: Cap insertions of fresh keys; the i-th one must evict the i-th entry of the recency order. A cache with a huge
+	// capacity cannot be filled: 4 insertions, which the reference says evict nothing.
+	nEpi := c.Cap
+	if c.Cap >= hugeCap {
+		nEpi = 4
+	}
+	for i := 0; i < nEpi; i++ {
 		key := 1000 + i
 		if blind {
 			begin(func() string {
@@ -1050,7 +1208,7 @@ func run(c Case, walk bool, info *Info) *vstat.Violation {
 			begin(func() string {
 				return fmt.Sprintf("epilogue (after %d calls): GetOrCreate(fresh key %s) [shape=%s cap=%d] before: %s", g, keyName(key), c.Shape, c.Cap, fmtModel(top))
 			})
-			v, _ := getOrCreate(key, 0, false, 0, nil, nil)
+			v, _ := getOrCreate(key, 0, false, 0, KindValue, nil, nil)
 			if v == nil {
 				v = ledger()
 			}
@@ -1127,6 +1285,9 @@ func opString(c Case, op Op, key, vr int) string {
 		if len(op.Nested) > 0 {
 			out = "create→{" + nestedString(op.Nested) + "}→" + out[len("create→"):]
 		}
+		if c.Shape == ShapeIface && normKind(op.Nil) != KindValue && !op.Fail {
+			out += " with a " + kindName(normKind(op.Nil))
+		}
 		if op.Born > 0 && c.Shape == ShapeExpirable {
 			out += fmt.Sprintf(", the next %d creation(s) for the key are born expired", min(op.Born, MaxBorn))
 		}
@@ -1163,6 +1324,9 @@ func nestedString(prog []Op) string {
 			}
 			if op.Born > 0 {
 				fmt.Fprintf(&b, ", next %d born expired", op.Born)
+			}
+			if op.Nil != 0 {
+				fmt.Fprintf(&b, ", value kind %d", normKind(op.Nil))
 			}
 			if op.Fail {
 				b.WriteString(", create→error)")
@@ -1205,7 +1369,7 @@ func (c Case) Hash() uint64 {
 	var ops func(l []Op)
 	ops = func(l []Op) {
 		for _, o := range l {
-			x := uint64(o.K[0]) | uint64(uint8(o.Buf))<<16 | uint64(uint8(o.Born))<<24
+			x := uint64(o.K[0]) | uint64(uint8(o.Buf))<<16 | uint64(uint8(o.Born))<<24 | uint64(uint8(o.Nil))<<32
 			if o.Fail {
 				x |= 256
 			}
@@ -1240,6 +1404,10 @@ func (i Info) Classes(c Case) []string {
 		return append(cl, "constructor_refusal")
 	case c.Cap <= 8:
 		cl = append(cl, "cap_"+strconv.Itoa(c.Cap))
+	case c.Cap == math.MaxInt:
+		cl = append(cl, "cap_huge", "cap_maxint")
+	case c.Cap >= hugeCap:
+		cl = append(cl, "cap_huge")
 	default:
 		cl = append(cl, "cap_gt8")
 	}
@@ -1275,6 +1443,12 @@ func (i Info) Classes(c Case) []string {
 	add(i.BornReturnedStale, "expirable_replacement_of_born_expired_is_born_expired_too")
 	add(i.BornReplacedStale, "expirable_stale_resident_replaced_by_born_expired")
 	add(i.BornRunOverCalls, "expirable_born_expired_run_spans_calls")
+	add(i.NilIfaceCreated > 0, "iface_creation_returned_nil_interface")
+	add(i.NilPtrCreated > 0, "iface_creation_returned_typed_nil_pointer")
+	add(i.NilHit, "iface_hit_on_resident_nil_value")
+	add(i.NilLeft, "iface_nil_value_left_by_evict_remove_clear")
+	add(i.NilEvicted, "iface_nil_value_evicted")
+	add(c.Cap >= hugeCap && i.ClearNonEmpty > 0, "cap_huge_clear_nonempty")
 	add(i.NestedCalls > 0, "reentrant_create_made_nested_calls")
 	add(i.NestedDepth2, "reentrant_depth_2")
 	add(i.NestedChanged, "reentrant_nested_call_changed_residents_or_order")
@@ -1306,6 +1480,9 @@ func Alphabet(shape string, keys int) []Op {
 		}
 		if shape == ShapeExpirable {
 			a = append(a, Op{K: "x", Key: k})
+		}
+		if shape == ShapeIface {
+			a = append(a, Op{K: "g", Key: k, Nil: KindNilIface}, Op{K: "g", Key: k, Nil: KindNilPtr})
 		}
 	}
 	return append(a, Op{K: "c"})
